@@ -26,7 +26,7 @@ func init() {
 		ID:          "C04",
 		Run:         RunC04,
 		Replay:      func(c *Ctx, entry, input string) { CheckC04(c, entry, input) },
-		Rule:        "cases = (entry, input): corpus (clean and !bad_) under its entries and the list entries, type seeds, nesting families, wide lists (300..40000 elements), wide lists with one deep element (129..1200 elements x 130..1100-deep chain / parentheses / array nest at the first, middle, last-but-one and last position), long tokens, generated sentences of grammar G, token mutants / splices / random bytes, and an operand matrix (every primary-expression form x binary/unary/postfix/comparison context, complete and truncated); for every returned tree SQL(), Pos(), End() are called on every reflectively enumerated node and Walk/Inspect/Preorder(+Many) on every root; distinct_nontrivial = distinct (entry,input)",
+		Rule:        "cases = (entry, input): corpus (clean and !bad_) under its entries and the list entries, type seeds, nesting families, wide lists (300..40000 elements), wide lists with one deep element (129..1200 elements x 130..1100-deep chain / parentheses / array nest at the first, middle, last-but-one and last position), long tokens, generated sentences of grammar G, token mutants / splices / random bytes, and an operand matrix (every primary-expression form x binary/unary/postfix/comparison context, complete and truncated); for every returned tree SQL(), Pos(), End() are called on every reflectively enumerated node and Walk/Inspect/Preorder(+Many) on every root; distinct_nontrivial = distinct (entry,input); Preorder / Inspect / PreorderMany / InspectMany are also stopped early at up to 14 points per tree (first two, middle, last two nodes, around every root boundary)",
 		Assumptions: []string{"nodes are enumerated by reflection over exported fields, independently of ast.Walk"},
 		Floors: func(m *Merged) []string {
 			f := missingBadKinds(m)
@@ -91,7 +91,7 @@ func init() {
 		Replay: func(c *Ctx, entry, input string) {
 			CheckC17(c, entry, input, gen.NewRand(c.Seed, 1700))
 		},
-		Rule:        "cases = (entry, input) of the tree workload (corpus, generated sentences, mutants incl. Bad trees); per tree: full Walk with a recording visitor (Visit/VisitMany/Field/Index trace vs reflective pre-order and slot paths), Inspect, 3 random prunings (Walk and Inspect), 3 Preorder cut-offs, and the *Many variants for list entries; distinct_nontrivial = distinct (entry,input)",
+		Rule:        "cases = (entry, input) of the tree workload (corpus, generated sentences, mutants incl. Bad trees); per tree: full Walk with a recording visitor (Visit/VisitMany/Field/Index trace vs reflective pre-order and slot paths), Inspect, 3 random prunings (Walk and Inspect), 3 Preorder cut-offs, and the *Many variants for list entries; distinct_nontrivial = distinct (entry,input); the recording visitor returns a fresh value from every callback and checks that Visit arrives at a value produced by root / Field / Index, VisitMany at root / Field, Field at the value Visit returned, Index at the value VisitMany returned",
 		Assumptions: []string{"the reflective model (exported node-typed fields in declaration order) is the specification of 'reachable' and 'source order'"},
 		Floors: func(m *Merged) []string {
 			var f []string
@@ -134,7 +134,7 @@ func init() {
 		ID:          "C01",
 		Run:         RunC01,
 		Replay:      func(c *Ctx, entry, input string) { CheckC01(c, entry, input) },
-		Rule:        "cases = (entry, input) accepted without error, from the corpus under its entries and list entries, type seeds, generated sentences of grammar G under all renderers, the accepted fraction of token mutants / near misses (edits, truncations, moves, duplicated runs, inserted phrases, widened lists) the operand matrix (every primary-expression form x operator context x field-name kind after a dot), the value-slot matrix (94 expression forms x 51 slots that take any expression) and fold-alike names (a pseudo-keyword's spelling under Unicode case folding, back-quoted in its place); each is unparsed, re-parsed with the same entry, compared modulo positions (validity must agree) and unparsed again (fixed point); distinct_nontrivial = distinct accepted (entry,input)",
+		Rule:        "cases = (entry, input) accepted without error, from the corpus under its entries and list entries, type seeds, generated sentences of grammar G under all renderers, the accepted fraction of token mutants / near misses (edits, truncations, moves, duplicated runs, inserted phrases, widened lists) the operand matrix (every primary-expression form x operator context x field-name kind after a dot), the value-slot matrix (94 expression forms x 51 slots that take any expression) and fold-alike names (a pseudo-keyword's spelling under Unicode case folding, back-quoted in its place); each is unparsed, re-parsed with the same entry, compared modulo positions (validity must agree) and unparsed again (fixed point); distinct_nontrivial = distinct accepted (entry,input); same-name variants (an identifier given the name of the previous / last-but-one identifier, all identifiers equal) and alias-collapse variants (operand AS x -> x AS x) of every systematic sentence",
 		Assumptions: []string{"equality modulo positions is reflective over all exported fields; nil and empty slices are considered equal"},
 		Floors: func(m *Merged) []string {
 			if m.Counters["accepted"] < 1000 {
@@ -147,7 +147,7 @@ func init() {
 		ID:          "C11",
 		Run:         RunC11,
 		Replay:      func(c *Ctx, entry, input string) { CheckC11(c, entry, input) },
-		Rule:        "cases = ';'-joined lists of 1-4 corpus statements (all kinds -> ParseStatements, DDL -> ParseDDLs, DML -> ParseDMLs), some token-mutated, plus end-of-input-sensitive statements (trailing select-list comma), literals and comments containing ';', with hostile trivia / empty statements around the separators, plus long homogeneous lists (4096 quick / 20000 thorough copies of each of 56 statement shapes incl. rejected ones, 2500 copies of each sentence of the systematic set of grammar G) that drive one parser instance through thousands of statements, and a ';' inserted in front of every token of every corpus file and systematic sentence; list parse vs SplitRawStatements + single parse of each piece with >= 1 token; distinct_nontrivial = distinct lists with >= 2 statements",
+		Rule:        "cases = ';'-joined lists of 1-4 corpus statements (all kinds -> ParseStatements, DDL -> ParseDDLs, DML -> ParseDMLs), some token-mutated, plus end-of-input-sensitive statements (trailing select-list comma), literals and comments containing ';', with hostile trivia / empty statements around the separators, plus long homogeneous lists (4096 quick / 20000 thorough copies of each of 56 statement shapes incl. rejected ones, 2500 copies of each sentence of the systematic set of grammar G) that drive one parser instance through thousands of statements, and a ';' inserted in front of every token of every corpus file and systematic sentence; list parse vs SplitRawStatements + single parse of each piece with >= 1 token; distinct_nontrivial = distinct lists with >= 2 statements; all ordered pairs a;b (and a;b;b for the context-sensitive ones) of a statement pool (systematic set of G in canonical spelling, short corpus statements, 45 context-sensitive trailing-comma statements; quick: one per keyword skeleton, texts <= 160 bytes)",
 		Assumptions: []string{"'lexes without error' is decided by memefish.Lexer (checked by C13/C14)"},
 		Floors: func(m *Merged) []string {
 			if m.Counters["lists_clean"] == 0 || m.Counters["lists_with_error"] == 0 || m.Counters["empty_pieces"] == 0 || m.Counters["positions_compared"] == 0 {
@@ -177,7 +177,7 @@ func init() {
 		Run:         RunC18,
 		Replay:      ReplayC18,
 		Race:        true,
-		Rule:        "worker built with -race; determinism set = corpus under every entry + 2-statement lists + SplitRawStatements + type seeds + token mutants (same in every shard); per shard: sequential reference digests (tree incl. positions, SQL, Pos/End of every node, walk count, error list), repetition in shuffled order interleaved with unrelated calls, aliasing check of address sets of separately returned trees + mutation of a returned tree followed by a repeat, rounds of 64 goroutines released on a barrier (each with its own order, hot inputs shared) whose digests are compared with the sequential ones, package-table digest before/after; held results: for every error-site representative of errsites.tsv (one short input per (entry, error message shape), written by cmd/harvest) and a sample of the set, the result is kept, the same text is parsed again at shifted positions, and the kept result must read the same; all error sites from 16 goroutines at once; shards are fresh processes and must agree on the digest of the whole set; race reports are counted in GORACE log files; distinct_nontrivial = distinct (entry,input) of the determinism set",
+		Rule:        "worker built with -race; determinism set = corpus under every entry + 2-statement lists + SplitRawStatements + type seeds + token mutants (same in every shard); per shard: sequential reference digests (tree incl. positions, SQL, Pos/End of every node, walk count, error list), repetition in shuffled order interleaved with unrelated calls, aliasing check of address sets of separately returned trees + mutation of a returned tree followed by a repeat, rounds of 64 goroutines released on a barrier (each with its own order, hot inputs shared) whose digests are compared with the sequential ones, package-table digest before/after; held results: for every error-site representative of errsites.tsv (one short input per (entry, error message shape), written by cmd/harvest) and a sample of the set, the result is kept, the same text is parsed again at shifted positions, and the kept result must read the same; all error sites from 16 goroutines at once; shards are fresh processes and must agree on the digest of the whole set; race reports are counted in GORACE log files; distinct_nontrivial = distinct (entry,input) of the determinism set; the determinism set also holds multi-key hints in front of every short corpus statement and every context-sensitive statement",
 		Assumptions: []string{"the race detector only sees accesses that execute; schedules are not enumerated", "sharing one Parser/Lexer/File value between goroutines is out of scope"},
 		Floors: func(m *Merged) []string {
 			var f []string
@@ -210,7 +210,7 @@ func init() {
 		ID:          "C08",
 		Run:         RunC08,
 		Replay:      func(c *Ctx, entry, input string) { CheckC08(c, entry, input) },
-		Rule:        "cases = sentences of grammar G written from the documentation (internal/gen/grammar.go, ddl.go; scope in internal/gen/SCOPE.md): the systematic each-choice set (every alternative of every production, every optional clause on/off, every list at lengths min/min+1/3) under upper-case/canonical, lower-case/tight and random-case/hostile-trivia renderings, plus random derivations; each must be accepted by its entry point and by ParseStatement with reflect.DeepEqual trees (positions included); random ';'-joined lists of 0-5 accepted sentences with and without trailing ';' through ParseStatements/ParseDDLs/ParseDMLs; value-slot matrix (every expression form in every slot that takes any expression must be accepted); size relation: a sentence (systematic set, corpus, hand-written hosts with parenthesised query operands) accepted with one of its lists widened by 13 elements must be accepted with it widened by 900; distinct_nontrivial = distinct token-kind skeletons",
+		Rule:        "cases = sentences of grammar G written from the documentation (internal/gen/grammar.go, ddl.go; scope in internal/gen/SCOPE.md): the systematic each-choice set (every alternative of every production, every optional clause on/off, every list at lengths min/min+1/3) under upper-case/canonical, lower-case/tight and random-case/hostile-trivia renderings, plus random derivations; each must be accepted by its entry point and by ParseStatement with reflect.DeepEqual trees (positions included); random ';'-joined lists of 0-5 accepted sentences with and without trailing ';' through ParseStatements/ParseDDLs/ParseDMLs; value-slot matrix (every expression form in every slot that takes any expression must be accepted); size relation: a sentence (systematic set, corpus, hand-written hosts with parenthesised query operands) accepted with one of its lists widened by 13 elements must be accepted with it widened by 900; distinct_nontrivial = distinct token-kind skeletons; a query slot matrix (9 query forms as parenthesised leading operand x 10 larger query forms x 22 query slots)",
 		Assumptions: []string{"G is the reference grammar; constructs memefish does not implement are excluded and recorded in SCOPE.md", "documented forms that memefish rejects are fixed scope probes, listed in KNOWN_FINDINGS.txt by exact input"},
 		Floors: func(m *Merged) []string {
 			var f []string
@@ -259,7 +259,7 @@ func init() {
 		ID:          "C06",
 		Run:         RunC06,
 		Replay:      func(c *Ctx, entry, input string) { CheckC06(c, entry, input) },
-		Rule:        "cases = accepted inputs whose own round trip (C01) holds: corpus, type seeds, sentences of G (systematic set under 3 renderings + random), accepted token mutants and near misses (<= 1200 bytes), the operand matrix, every corpus statement and systematic sentence as second element of a list; for every node with a sane range: (a) if it sits in a slot whose static type is Expr / Type / QueryExpr / Statement / DDL / DML, input[Pos:End] is parsed on its own with the matching entry point and must give a tree equal to the node modulo positions; (b) input[:Pos]+' '+SQL()+' '+input[End:] must parse under the original entry point to a tree equal to the original; a node is reported only if all its descendants pass (root cause); distinct_nontrivial = distinct (entry,input)",
+		Rule:        "cases = accepted inputs whose own round trip (C01) holds: corpus, type seeds, sentences of G (systematic set under 3 renderings + random), accepted token mutants and near misses (<= 1200 bytes), the operand matrix, every corpus statement and systematic sentence as second element of a list; for every node with a sane range: (a) if it sits in a slot whose static type is Expr / Type / QueryExpr / Statement / DDL / DML, input[Pos:End] is parsed on its own with the matching entry point and must give a tree equal to the node modulo positions; (b) input[:Pos]+' '+SQL()+' '+input[End:] must parse under the original entry point to a tree equal to the original; a node is reported only if all its descendants pass (root cause); distinct_nontrivial = distinct (entry,input); same-name and alias-collapse variants of every systematic sentence",
 		Assumptions: []string{"the slot rule (static field type) implements the property's exclusions: single-identifier Path, field-name Ident, NamedType in SchemaType slots are never in an Expr/Type slot"},
 		Floors: func(m *Merged) []string {
 			if m.Counters["substring_parses"] == 0 || m.Counters["splices"] == 0 || m.SetLen("substring_parsed_types") < 40 {
